@@ -111,6 +111,40 @@ CHECKS.update({
             "not covered.", "3/C15"),
 })
 
+GROUP_TEXT = ("2-3 real group AIOKafkaConsumers (coordinator, heartbeat, fetcher, client, connections) run on one virtual-time loop against a "
+              "simulated group coordinator (JoinGroup v0-v5 incl. MEMBER_ID_REQUIRED, join/sync barriers, session and rebalance timers, "
+              "OffsetCommit/OffsetFetch) while an outside producer keeps appending records. Every execution whose deviation counts "
+              "(r reorderings incl. timer-first, p mid-cascade injections, f faults: drop before/after apply, lost reply, every transient "
+              "coordinator error code per API, coordinator move with/without state, k kill of a member at any choice point) fit a budget "
+              "vector is run from scratch; deviations are placed in the first virtual seconds, then the environment is quiet. ")
+
+CHECKS.update({
+    "C04": (MC, "stateless deviation-bounded exhaustive exploration of real multi-member consumer groups (schedules x faults x kill points) "
+                "against a simulated coordinator",
+            GROUP_TEXT + "Oracles: at the instant any OffsetCommit is written every visible record between the member's start position "
+            "and the committed offset had been handed to its application; at the end of the quiet period every visible record was "
+            "delivered to some member; a re-delivered record lies at or above the committed offset its owner was given.",
+            STATEFUL_NOTE, "3/C04"),
+    "C05": (MC, "stateless deviation-bounded exhaustive exploration of real multi-member consumer groups (rebalances overlapping fetches, "
+                "stretched callbacks, subscription/metadata changes) against a simulated coordinator",
+            GROUP_TEXT + "Scenarios: equal/different subscriptions, range/roundrobin/sticky and assignor pairs, pattern subscription with a "
+            "topic appearing, partition growth, subscribe() during a rebalance, listener callbacks gated by the explorer. Oracles: the "
+            "leader's distribution per generation is pairwise disjoint and inside subscriptions; what a member adopts and reports equals "
+            "its SyncGroup bytes; revoked partitions are silent until re-assigned; every returned record was fetched by a request written "
+            "after the current assignment was adopted; all revoke callbacks of a rebalance end before any assign callback of it starts.",
+            STATEFUL_NOTE + " Adoption instants are observed by run-time wrappers around two SubscriptionState methods (observation only).",
+            "3/C05"),
+    "C06": (MC, "stateless deviation-bounded exhaustive exploration of real multi-member consumer groups (fault sequences x schedules x "
+                "configurations) against a simulated coordinator, with a bounded-liveness horizon",
+            GROUP_TEXT + "Configurations: 1-3 members, 1-3 assignors in several orders, JoinGroup capped at v0/v1/v2/v5, graceful leave, "
+            "subscription change, membership error codes on single replies. Oracles: every JoinGroup written advertises all configured "
+            "strategies in order; a successful JoinGroup reply is followed by that member's SyncGroup with the replied identity unless a "
+            "fault or subscription change intervened; H = rebalance timeout + 2 x session timeout after the last deviation every live "
+            "member is in the coordinator's latest generation, assignments cover the subscribed partitions, heartbeats keep arriving and "
+            "the generation stays constant for a further 2 x session timeout.",
+            STATEFUL_NOTE, "3/C06"),
+})
+
 NOT_APPLICABLE = {}
 
 
